@@ -108,6 +108,9 @@ func (vfs *MemFS) VolumeAdd(path string) error {
 		return &fs.PathError{Op: op, Path: path, Err: avfs.ErrVolumeNameInvalid}
 	}
 
+	vfs.treeMu.Lock()
+	defer vfs.treeMu.Unlock()
+
 	_, ok := vfs.volumes[vol]
 	if ok {
 		return &fs.PathError{Op: op, Path: path, Err: avfs.ErrVolumeAlreadyExists}
@@ -132,15 +135,23 @@ func (vfs *MemFS) VolumeDelete(path string) error {
 		return &fs.PathError{Op: op, Path: path, Err: avfs.ErrVolumeNameInvalid}
 	}
 
-	_, ok := vfs.volumes[vol]
+	vfs.treeMu.Lock()
+	defer vfs.treeMu.Unlock()
+
+	nd, ok := vfs.volumes[vol]
 	if !ok {
 		return &fs.PathError{Op: op, Path: path, Err: avfs.ErrVolumeNameInvalid}
 	}
 
-	err := vfs.RemoveAll(vol)
+	// RemoveAll can't be used : it refuses to remove the root directory of a volume.
+	err := vfs.removeAll(nd)
 	if err != nil {
-		return err
+		return &fs.PathError{Op: op, Path: path, Err: err}
 	}
+
+	nd.mu.Lock()
+	nd.delete()
+	nd.mu.Unlock()
 
 	delete(vfs.volumes, vol)
 
